@@ -25,12 +25,13 @@ def main():
              match(["w", "a"], "==", "1"), match(["m", "w", "k"], "==", "1"), match(["w", "zz"], "!=", "1"),           # hook
              match(["m", "zz"], "==", "unk"), match(["zz"], "==", "unk"), match(["st", "Zz"], "empty"),                # unknown value
              match(["s"], "==", "scalar"),                                                                             # resolves: neutral
+             match(["n"], "==", "unk"), match(["m", "nilv"], "empty"),                                                 # resolves to nil: still resolves
              {"t": "coll", "op": "any", "sel": {"ty": "bexpr", "path": ["List"]}, "mode": "default", "n1": "v", "n2": "",
               "e": match(["v", "sec"], "==", "s3cr3t"), "val": "", "hv": False}]
-    probes = [{"e": 1, "d": idx["tagged"]}, {"e": 2, "d": idx["tagged"]}, {"e": 3, "d": idx["tagged"]}, {"e": 11, "d": idx["tagged"]},
+    probes = [{"e": 1, "d": idx["tagged"]}, {"e": 2, "d": idx["tagged"]}, {"e": 3, "d": idx["tagged"]}, {"e": 13, "d": idx["tagged"]},
               {"e": 4, "d": idx["wrapped"]}, {"e": 5, "d": idx["wrapped"]}, {"e": 6, "d": idx["wrapped"]},
               {"e": 7, "d": idx["absent"]}, {"e": 8, "d": idx["absent"]}, {"e": 9, "d": idx["absent"]}, {"e": 10, "d": idx["absent"]},
-              {"e": 6, "d": idx["absent"]}]
+              {"e": 6, "d": idx["absent"]}, {"e": 11, "d": idx["absent"]}, {"e": 12, "d": idx["absent"]}]
     wd = vlib.sub("c18")
     with open(os.path.join(wd, "exprs.json"), "w") as fh:
         json.dump(exprs, fh)
